@@ -6,6 +6,8 @@ printed unmodified and tested against the limit on every cycle; R3 the root
 list is exactly the searchmoves list when one is given and the root node
 iterates only that list; R4 every recursive call has a decreasing measure
 behind a cut. Not decided: wall-clock adherence to movetime."""
+import re
+
 from facts import AnalysisBroken
 from prog import walk, kids, short, access_kind
 from rules.common import (strip_casts, strip_conv, const_of, guard_facts, written_value, expr_key,
@@ -47,6 +49,57 @@ def check(ctx):
                'definition of Search::_search_depth is a constant <= MAX_DEPTH or std::min(..., MAX_DEPTH) (%s)' % why,
                site=f.loc(n))
     ctx.floor('C09.R1.depth-clamped', n_def, 5, 'definitions of _search_depth')
+    # which limit wins, and what the searcher is left with: per combination of limits, the last values the constructor gives to
+    # the depth and time budgets
+    from rules.cases import effects_under
+    ctor = [f for f in p.fns('engine::Search::Search') if f.body is not None]
+    if len(ctor) != 1:
+        raise AnalysisBroken('C09: the Search constructor was not found')
+    ctor = ctor[0]
+    ctx.analysed(ctor)
+    bad = None
+    n_rows = 0
+    for inf in (0, 1):
+        for d in (0, 5, 100):
+            for mt in (0, 300):
+                for tl in (0, 5000):
+                    for sm in (0, 2):
+                        n_rows += 1
+                        val = {'limits.infinite': inf, 'limits.depth': d, 'limits.movetime': mt,
+                               'limits.timeleft[position.color()]': tl, 'limits.timeleft[_position.color()]': tl,
+                               'limits.searchmovesnum': sm, '_max_nodes_searched': 0, 'limits.nodes': 0}
+                        eff = effects_under(ctor, kids(ctor.body), val)
+                        last = {}
+                        for e in eff:
+                            m_ = re.fullmatch(r'\((_search_depth|_search_time)=(.*)\)', e)
+                            if m_:
+                                last[m_.group(1)] = m_.group(2)
+                        dep, tim = last.get('_search_depth'), last.get('_search_time')
+                        why = None
+                        if dep is None or tim is None:
+                            why = 'the %s budget is left unset' % ('depth' if dep is None else 'time')
+                        else:
+                            dm = re.fullmatch(r'min\((\d+),(\d+)\)', dep)
+                            dv = min(int(dm.group(1)), int(dm.group(2))) if dm else (int(dep) if dep.isdigit() else None)
+                            if dv is None or dv > maxd:
+                                why = 'the depth budget is %s' % dep
+                            elif not inf and d and dv > d:
+                                why = 'go depth %d leaves a depth budget of %s' % (d, dep)
+                            elif not inf and not d and mt and tim != str(mt):
+                                why = 'go movetime %d leaves a time budget of %s' % (mt, tim)
+                            elif not inf and not d and not mt and tl and not re.fullmatch(r'(TimeManager::)?calculateTime\(limits,_?position\.color\(\),_?position\.ply_count\(\)\)', tim):
+                                why = 'a clock limit leaves a time budget of %s' % tim
+                        roots = [e for e in eff if e.startswith('_root_moves.insert(')]
+                        if why is None and sm and (len(roots) != 1 or 'limits.searchmoves' not in roots[0] or 'generate_moves' in roots[0]):
+                            why = 'with searchmoves the root list is filled by %s' % roots
+                        if why is None and not sm and (len(roots) != 1 or 'generate_moves(' not in roots[0]):
+                            why = 'without searchmoves the root list is filled by %s' % roots
+                        if why and bad is None:
+                            bad = 'infinite=%d depth=%d movetime=%d clock=%d searchmoves=%d: %s' % (inf, d, mt, tl, sm, why)
+    ctx.ob('C09.R1.limits-table', 'Search::Search', bad is None,
+           'over %d combinations of limits: both budgets are always set, the depth budget never exceeds MAX_DEPTH nor a given depth, '
+           'a movetime or clock limit (when no depth is given) becomes the time budget, and the root list is the searchmoves list when '
+           'one is given%s' % (n_rows, '' if bad is None else ' — ' + bad), site=ctor.loc())
 
     # ---- R2 iteration counter ---------------------------------------------------------------
     c = it.cfg
